@@ -35,6 +35,15 @@ def frame_bits(hexstr, flips=()):
 
 def pulse_amps(amp, ripple, seed, npulses):
     """Per-pulse amplitudes, kept inside [0.3, 1.4]."""
+    if ripple < 0:
+        # "wild" per-pulse amplitudes: every pulse anywhere in [0.3, 1.4] (fading
+        # within a frame); -2 additionally forces a three-weak-one-strong preamble
+        rs = np.random.RandomState((seed ^ 0x3C3C3C) & 0x7FFFFFFF)
+        a = 0.3 + 1.1 * rs.random_sample(npulses)
+        if ripple <= -2:
+            a[:4] = [0.3, 0.3, 0.3, 0.3]
+            a[int(rs.randint(0, 4))] = 1.4
+        return a
     if ripple <= 0:
         return np.full(npulses, amp)
     rs = np.random.RandomState((seed ^ 0x5A5A5A) & 0x7FFFFFFF)
